@@ -77,15 +77,26 @@ def eval_limits(args):
     real_depth = depth + (1 if leaves else 0)
     old = (L.MAX_XML_DEPTH, L.MAX_XML_ELEMENTS); L.MAX_XML_DEPTH, L.MAX_XML_ELEMENTS = md, me
     try:
+        import io
+        gots = {}
+        import tempfile, os
+        fd, path = tempfile.mkstemp(prefix='verif_c11_', suffix='.xml'); os.write(fd, docd.encode()); os.close(fd)
         try:
-            r = xmlschema.XMLResource(docd, lazy=lazy)
-            if lazy: sum(1 for _ in r.iter())
-            got = 'loads'
-        except XMLResourceExceeded: got = 'refused'
-        except Exception as e: got = f'raised {type(e).__name__}'
+            for kind, mk in (('text', lambda: docd), ('bytes', lambda: docd.encode()), ('path', lambda: path), ('open-binary', lambda: open(path, 'rb')), ('open-text', lambda: open(path)), ('BytesIO', lambda: io.BytesIO(docd.encode()))):
+                src = mk()
+                try:
+                    r = xmlschema.XMLResource(src, lazy=lazy)
+                    if lazy: sum(1 for _ in r.iter())
+                    gots[kind] = 'loads'
+                except XMLResourceExceeded: gots[kind] = 'refused'
+                except Exception as e: gots[kind] = f'raised {type(e).__name__}'
+                finally:
+                    if hasattr(src, 'close'): src.close()
+        finally: os.unlink(path)
     finally: L.MAX_XML_DEPTH, L.MAX_XML_ELEMENTS = old
     want = 'refused' if real_depth > md or (not lazy and n > me) else 'loads'
-    return None if got == want else dict(lazy=lazy, max_depth=md, max_elements=me, depth=real_depth, elements=n, got=got, want=want)
+    wrong = {k: v for k, v in gots.items() if v != want}
+    return None if not wrong else dict(lazy=lazy, max_depth=md, max_elements=me, depth=real_depth, elements=n, got=wrong, want=want)
 
 
 ETYPES = {'integer': '1', 'int': '1', 'decimal': '1.5', 'double': '1.0E0', 'float': '1', 'gYear': '2000', 'gYearMonth': '2000-01', 'date': '2000-01-01', 'dateTime': '2000-01-01T00:00:00',
@@ -170,7 +181,7 @@ def run(tier, seed, open_findings):
                 if cnt >= 1: ljobs.append((lazy, 1000, me, 1, cnt))
     lres = [eval_limits(j) for j in ljobs]
     lf = [dict(case=dict(lazy=r['lazy'], max_depth=r['max_depth'], max_elements=r['max_elements'], depth=r['depth'], elements=r['elements']), observed=r['got'], required=r['want']) for r in lres if r]
-    out.append(result('C11.limit_sweep', f'{len(ljobs)} (lazy, limit setting, size) points at limit-1, limit, limit+1 for depth and element count', len(ljobs), lf, exhaustive=True,
+    out.append(result('C11.limit_sweep', f'{len(ljobs)} (lazy, limit setting, size) points at limit-1, limit, limit+1 for depth and element count x 6 source kinds (text, bytes, path, open binary / text files, BytesIO)', len(ljobs), lf, exhaustive=True,
                       samples=[dict(lazy=False, max_depth=5, depth=5)]))
     # extreme lexical values where a typed value is computed outside the datatype decoder: identity fields (XPath typed value) and facets
     ejobs = [(ver, t, v, role) for ver in ('1.0', '1.1') for t in ETYPES for v in EVALUES for role in ('key', 'enum', 'range', 'attr-key')]
